@@ -558,7 +558,8 @@ def _missing_et(ctx, chk, load):
                     best = (g, s)
         compares = [s_ for s_ in ctx.sites_in(f) if s_.stmt is not None and s_.stmt.kind == "select"
                     and {"grid_time", "evapotranspiration_staging"} <= stmt_reads(s_.stmt)]
-        if best is None and compares:
+        untraced = [g_ for g_ in guards_of(f, include_assert=True)]
+        if best is None and compares and untraced:
             chk.indeterminate("C11.O4", where_of(f, compares[0].call), "a query compares grid_time with evapotranspiration_staging, but no raising guard could be traced to its result")
             continue
         if best is None:
